@@ -60,6 +60,9 @@ func (x *Exec) learn(c *Term) {
 		if hi < cur[1] {
 			cur[1] = hi
 		}
+		if old, had := x.bounds[s.Name]; !had || old != cur {
+			x.ivMemo = nil // bounds tightened: cached ranges may be improved
+		}
 		x.bounds[s.Name] = cur
 	}
 	// sym (<|<=) const
@@ -167,7 +170,10 @@ func (x *Exec) rangeOf(t *Term, memo map[int]ival) ival {
 		}
 	case OpURem:
 		a, b := x.rangeOf(t.Args[0], memo), x.rangeOf(t.Args[1], memo)
-		if b.lo > 0 {
+		if b.lo > 0 && b.lo == b.hi && a.lo/b.lo == a.hi/b.lo {
+			// the quotient is the same over the whole range: the remainder is exact
+			r = ival{a.lo % b.lo, a.hi % b.lo, true}
+		} else if b.lo > 0 {
 			hi := b.hi - 1
 			if a.hi < hi {
 				hi = a.hi
@@ -186,7 +192,9 @@ func (x *Exec) rangeOf(t *Term, memo map[int]ival) ival {
 	case OpSRem:
 		a, b := x.rangeOf(t.Args[0], memo), x.rangeOf(t.Args[1], memo)
 		half := uint64(1) << uint(w-1)
-		if a.hi < half && b.hi < half && b.lo > 0 {
+		if a.hi < half && b.hi < half && b.lo > 0 && b.lo == b.hi && a.lo/b.lo == a.hi/b.lo {
+			r = ival{a.lo % b.lo, a.hi % b.lo, true}
+		} else if a.hi < half && b.hi < half && b.lo > 0 {
 			hi := b.hi - 1
 			if a.hi < hi {
 				hi = a.hi
@@ -342,4 +350,29 @@ func (x *Exec) decide(c *Term, memo map[int]ival) int {
 		}
 	}
 	return -1
+}
+
+// fold replaces a term whose value the stated bounds pin to one point by that constant. Sound on
+// this path because the path condition (from which the bounds were learnt) only grows.
+func (x *Exec) fold(t *Term) *Term {
+	if x.ivMemo == nil {
+		x.ivMemo = map[int]ival{}
+	}
+	if t.W == 0 {
+		switch x.decide(t, x.ivMemo) {
+		case 1:
+			x.Folded++
+			return x.ts.T
+		case 0:
+			x.Folded++
+			return x.ts.F
+		}
+		return t
+	}
+	r := x.rangeOf(t, x.ivMemo)
+	if r.ok && r.lo == r.hi {
+		x.Folded++
+		return x.ts.BV(r.lo, t.W)
+	}
+	return t
 }
